@@ -48,6 +48,14 @@ def loader_bytes(base, name, dec_a_jp=False):
     for a in (0x057B, 0x0582, 0x05CA):
         fix(a, edge2)
     fix(0x05D5, base + (0x05CA - 0x0556))
+    # LD HL,$0415 -> LD HL,$0020: the wait after the first edge is 30 ms instead of one second.  With the ROM's
+    # one-second wait a turbo pilot of 1.5-2 s survives at most one restart of the leader search, and whether
+    # the first measured pulse pair is "too short" (-> restart) depends on a sampling phase of a few dozen
+    # T-states that legitimately differs between timing-changing configurations (fast-load, cmio): such a tape
+    # "loads" only by luck.  With a short wait a restart costs nothing and the tape loads for every phase.
+    assert part1[0x0571 - 0x0556:0x0574 - 0x0556] == bytes((0x21, 0x15, 0x04))
+    part1[0x0572 - 0x0556] = 0x20
+    part1[0x0573 - 0x0556] = 0x00
     if mask == 0x40:
         part1[0x0564 - 0x0556] = 0x00      # no RRA: the EAR bit stays in bit 6
         part1[0x0566 - 0x0556] = 0x40
